@@ -9,7 +9,8 @@
 //!    through `KVVPersister<MemoryKVVStore>` + `Node::restore_node`, and fresh nodes on the same seed.
 //! Monitors (ghost ledger keyed by (style, seed, network, channel id), kept across restarts and node
 //! instantiations): `keys-depend-on-history`, `keys-collide-across-ids`, `secret-tree-law-broken`,
-//! `public-keys-not-from-secrets`.
+//! `public-keys-not-from-secrets`, `secret-does-not-match-commitment-number` (a secret handed out for
+//! number k by a repeated revocation / the old GetPerCommitmentPoint reply is not the secret k).
 use crate::common::*;
 use lightning_signer::bitcoin::bip32::{ChildNumber, DerivationPath, Xpriv};
 use lightning_signer::bitcoin::hashes::sha256::Hash as Sha256;
@@ -32,6 +33,10 @@ use std::collections::BTreeMap;
 use std::sync::Arc;
 use vls_persist::kvv::memory::MemoryKVVStore;
 use vls_persist::kvv::{JsonFormat, KVVPersister};
+use vls_protocol::model::PubKey;
+use vls_protocol::msgs::{self, Message, SerBolt};
+use vls_protocol_signer::approver::PositiveApprover;
+use vls_protocol_signer::handler::{ChannelHandler, Handler, InitHandler, RootHandler};
 
 const INITIAL: u64 = (1 << 48) - 1;
 
@@ -552,6 +557,95 @@ impl<'a> Mon<'a> {
         for m in hist { self.fire("keys-depend-on-history", m); }
         for m in tree { self.fire("secret-tree-law-broken", m); }
     }
+
+    /// a secret handed out for commitment number `k` by a *repeated* revocation or by the old
+    /// GetPerCommitmentPoint reply: it must be the signer's secret `k` (what the Lean model prints),
+    /// its image must be the point the channel hands out for `k`, it must equal what was released
+    /// for `k` the first time, and together with the secrets released for 0..k-1 it must be accepted
+    /// by the real compact store in release order.
+    fn rereleased(&mut self, live: &Live, id0v: &[u8], k: u64, secret: [u8; 32], how: &str) {
+        let id0 = ChannelId::new(id0v);
+        let secp = Secp256k1::new();
+        let keys = match live.node.get_channel(&id0) {
+            Ok(slot) => with_keys(&slot.lock().unwrap(), |ks, _| ks.clone()),
+            Err(_) => return,
+        };
+        let expect = keys.release_commitment_secret(INITIAL - k).unwrap();
+        if expect != secret {
+            self.fire("secret-does-not-match-commitment-number", format!("{}: channel {} handed out {} for commitment {} but its per-commitment secret {} is {}", how, hx(id0v), hx(&secret), k, k, hx(&expect)));
+        }
+        let point = live.node.with_channel_base(&id0, |b| b.get_per_commitment_point(k)).ok();
+        let image = SecretKey::from_slice(&secret).ok().map(|s| PublicKey::from_secret_key(&secp, &s));
+        if point.is_some() && image != point {
+            self.fire("secret-does-not-match-commitment-number", format!("{}: channel {} handed out secret {} for commitment {} whose image {:?} is not the point {:?} of that number", how, hx(id0v), hx(&secret), k, image, point));
+        }
+        let key = (live.cfgkey.clone(), id0v.to_vec());
+        let l = self.ledger.entry(key).or_default();
+        let mut msgs = Vec::new();
+        if let Some(old) = l.released.get(&k) {
+            if *old != secret {
+                msgs.push(("secret-does-not-match-commitment-number", format!("{}: channel {} released {} for commitment {} the first time and {} now", how, hx(id0v), hx(old), k, hx(&secret))));
+            }
+        }
+        // the counterparty's view: 0..k-1 as first released, then this one
+        if (0..k).all(|j| l.released.contains_key(&j)) {
+            let mut store = CounterpartyCommitmentSecrets::new();
+            let mut ok = true;
+            for j in 0..k {
+                ok &= store.provide_secret(INITIAL - j, l.released[&j]).is_ok();
+            }
+            if ok && store.provide_secret(INITIAL - k, secret).is_err() {
+                msgs.push(("secret-tree-law-broken", format!("{}: channel {} secret {} handed out for commitment {} does not chain with the secrets released for 0..{}", how, hx(id0v), hx(&secret), k, k)));
+            }
+        }
+        for (kind, m) in msgs { self.fire(kind, m); }
+    }
+
+    /// a point handed out for number `n`: must be the image of the signer's secret `n`; returns
+    /// that secret in hex (what the model prints for the point)
+    fn point_obs(&mut self, live: &Live, id0v: &[u8], n: u64, point: PublicKey, how: &str) -> String {
+        let id0 = ChannelId::new(id0v);
+        let keys = match live.node.get_channel(&id0) {
+            Ok(slot) => with_keys(&slot.lock().unwrap(), |ks, _| ks.clone()),
+            Err(_) => return "none".into(),
+        };
+        if n > INITIAL { return "none".into(); }
+        let s = keys.release_commitment_secret(INITIAL - n).unwrap();
+        self.commit_obs(live, id0v, n, &s, Some(point), how);
+        hx(&s)
+    }
+}
+
+/// a real `ChannelHandler` for (peer, dbid) on the live node, negotiated at protocol `version`
+/// (5 = the last version whose GetPerCommitmentPoint reply discloses the secret of n-2)
+fn channel_handler(node: &Arc<Node>, peer: &[u8], dbid: u64, version: u32) -> Option<ChannelHandler> {
+    let mut init = InitHandler::new(0, node.clone(), Arc::new(PositiveApprover()), version);
+    let m = msgs::HsmdInit {
+        key_version: vls_protocol::model::Bip32KeyVersion { pubkey_version: 0, privkey_version: 0 },
+        chain_params: lightning_signer::bitcoin::BlockHash::all_zeros(),
+        encryption_key: None,
+        dev_privkey: None,
+        dev_bip32_seed: None,
+        dev_channel_secrets: None,
+        dev_channel_secrets_shaseed: None,
+        hsm_wire_min_version: 2,
+        hsm_wire_max_version: version,
+    };
+    let (done, _) = init.handle(Message::HsmdInit(m)).ok()?;
+    if !done {
+        return None;
+    }
+    let root: RootHandler = init.into();
+    let mut p = [0u8; 33];
+    p.copy_from_slice(peer);
+    Some(root.for_new_client(1, PubKey(p), dbid))
+}
+
+/// send a request through encode → decode → real handler → encode → decode
+fn roundtrip(h: &ChannelHandler, m: &dyn SerBolt) -> Option<Message> {
+    let req = msgs::from_vec(m.as_vec()).ok()?;
+    let reply = h.handle(req).ok()?;
+    msgs::from_vec(reply.as_vec()).ok()
 }
 
 fn chan_setup(id0: &[u8], value: u64, net: Network) -> lightning_signer::channel::ChannelSetup {
@@ -605,7 +699,7 @@ impl Group for C18Node {
          (random value, optionally with a permanent id), real validate+revoke steps (counterparty-signed holder \
          commitments), per-commitment queries around next_holder_commit_num (0, next-1..next+2, 2^48-1, 2^48), restarts \
          through the real persister with a different starting time, and 1-2 further fresh nodes on the same seed that \
-         create the ids in another order; non-trivial = at least two distinct channel ids, at least one restart or second \
+         create the ids in another order; repeated revocations of older commitments (revoke_previous_holder_commitment(N) for N from 0 to next+1, directly and as RevokeCommitmentTx over the wire protocol) and the pre-v6 GetPerCommitmentPoint reply (point n + secret n-2) through a real ChannelHandler, at random later points, before and after restarts; non-trivial = at least two distinct channel ids, at least one restart or second \
          instantiation, and at least one secret released by a real revoke"
     }
     fn budget(&self, tier: Tier) -> usize { if tier == Tier::Quick { 600 } else { 6000 } }
@@ -636,6 +730,22 @@ impl Group for C18Node {
                 format!("advance 1 {}", pa),
                 format!("commit 1 {} 2", pa),
                 format!("commit 1 {} 5", pa),
+                // repeat older revocations (next = 4): RevokeCommitmentTx for commitments 0, 1, 2
+                format!("rerevoke 1 {} 1", pa),
+                format!("rerevoke 1 {} 2", pa),
+                format!("rerevoke 1 {} 3", pa),
+                format!("rerevoke 1 {} 0", pa),
+                format!("rerevoke 1 {} 4", pa),
+                format!("rerevoke 1 {} 5", pa),
+                format!("getpoint 1 {} 0", pa),
+                format!("getpoint 1 {} 2", pa),
+                format!("getpoint 1 {} 4", pa),
+                format!("getpoint 1 {} 5", pa),
+                format!("getpoint 2 {} 1", pb),
+                format!("getpoint 2 {} 2", pb),
+                "restart".to_string(),
+                format!("rerevoke 1 {} 1", pa),
+                format!("rerevoke 1 {} 3", pa),
                 format!("node {} {} testnet", style, seed),
                 format!("new 2 {}{}", pb, o(&pb, 2)),
                 "new_random".to_string(),
@@ -745,7 +855,11 @@ impl Group for C18Node {
                 let (dbid, peer) = pool[c].clone();
                 if !st[c].1 {
                     match rng.below(6) {
-                        0 => ops.push(format!("commit {} {} {}", dbid, hx(&peer), rng.below(3))),
+                        0 => match rng.below(3) {
+                            0 => ops.push(format!("getpoint {} {} {}", dbid, hx(&peer), rng.below(3))),
+                            1 => ops.push(format!("rerevoke {} {} {}", dbid, hx(&peer), rng.below(2))),
+                            _ => ops.push(format!("commit {} {} {}", dbid, hx(&peer), rng.below(3))),
+                        },
                         1 => ops.push(new_line(dbid, &peer)),
                         _ => {
                             let value = *rng.pick(&[100_000u64, 1_000_000, 3_000_000, 16_000_000]);
@@ -756,9 +870,48 @@ impl Group for C18Node {
                     }
                     continue;
                 }
-                match rng.below(10) {
+                if st[c].2 < 3 && rng.chance(1, 2) {
+                    // get the channel past a few commitments first
+                    for _ in 0..rng.range(2, 4) {
+                        ops.push(format!("advance {} {}", dbid, hx(&peer)));
+                        st[c].2 += 1;
+                    }
+                    continue;
+                }
+                match rng.below(16) {
+                    10 | 11 | 12 | 13 => {
+                        // repeat an older revocation (N < next - 1 is the interesting region), or one
+                        // that is not available
+                        let next = st[c].2;
+                        let n = match rng.below(10) {
+                            0 => 0,
+                            1 => next,
+                            2 => next + 1,
+                            3 => next.saturating_sub(1),
+                            _ => if next > 2 { rng.range(1, next - 2) } else if next == 2 { 1 } else { rng.below(3) },
+                        };
+                        ops.push(format!("rerevoke {} {} {}", dbid, hx(&peer), n));
+                        if next > 3 && rng.chance(1, 2) {
+                            // a node replaying its log: several older revocations in a row
+                            let m = rng.range(1, next - 2);
+                            ops.push(format!("rerevoke {} {} {}", dbid, hx(&peer), m));
+                        }
+                    }
+                    14 | 15 => {
+                        let next = st[c].2;
+                        let n = match rng.below(8) {
+                            0 => 0,
+                            1 => 1,
+                            2 => 2,
+                            3 => next,
+                            4 => next + 1,
+                            5 => next + 2,
+                            _ => rng.below(next + 1),
+                        };
+                        ops.push(format!("getpoint {} {} {}", dbid, hx(&peer), n));
+                    }
                     0 | 1 | 2 | 3 | 4 => {
-                        let reps = rng.range(1, 3);
+                        let reps = if rng.chance(1, 2) { rng.range(2, 5) } else { 1 };
                         for _ in 0..reps {
                             ops.push(format!("advance {} {}", dbid, hx(&peer)));
                             st[c].2 += 1;
@@ -952,6 +1105,69 @@ impl Group for C18Node {
                                     if point.is_some() { "ok" } else { "refused" },
                                     if released.is_some() { "yes" } else { "no" }
                                 )
+                            }
+                        }
+                    }
+                    _ => "bad-op".into(),
+                },
+                ["rerevoke", db, pr, ns] => match (db.parse::<u64>(), unhx(pr), ns.parse::<u64>(), live.as_ref()) {
+                    (Ok(dbid), Some(peer), Ok(n), Some(l)) if peer.len() == 33 && n < INITIAL => {
+                        let id0v = le_chan_id(&peer, dbid);
+                        let id0 = ChannelId::new(&id0v);
+                        // what RevokeCommitmentTx{commitment_number: n - 1} does
+                        let direct = l.node.with_channel(&id0, |c| c.revoke_previous_holder_commitment(n));
+                        match direct {
+                            Err(_) => { mon.co.tags.insert("rerevoke:err".into()); "err".into() }
+                            Ok((next_point, secret)) => {
+                                mon.co.tags.insert(if secret.is_some() { "rerevoke:ok".into() } else { "rerevoke:ok-none".into() });
+                                let nxt = mon.point_obs(l, &id0v, n + 1, next_point, "repeated revoke");
+                                if let Some(s) = secret {
+                                    mon.rereleased(l, &id0v, n - 1, s.secret_bytes(), "repeated revoke");
+                                    // the same request over the wire protocol (v6)
+                                    if let Some(h) = channel_handler(&l.node, &peer, dbid, 6) {
+                                        match roundtrip(&h, &msgs::RevokeCommitmentTx { commitment_number: n - 1 }) {
+                                            Some(Message::RevokeCommitmentTxReply(r)) => {
+                                                mon.co.tags.insert("rerevoke:wire".into());
+                                                if r.old_commitment_secret.0 != s.secret_bytes() || r.next_per_commitment_point.0 != next_point.serialize() {
+                                                    mon.fire("secret-does-not-match-commitment-number", format!("channel {}: RevokeCommitmentTx({}) over the wire gave secret {} but the channel call gave {}", hx(&id0v), n - 1, hx(&r.old_commitment_secret.0), hx(&s.secret_bytes())));
+                                                }
+                                                mon.rereleased(l, &id0v, n - 1, r.old_commitment_secret.0, "RevokeCommitmentTx");
+                                            }
+                                            _ => mon.fire("secret-does-not-match-commitment-number", format!("channel {}: RevokeCommitmentTx({}) refused over the wire although the channel call succeeded", hx(&id0v), n - 1)),
+                                        }
+                                    }
+                                }
+                                format!("ok released={} nextsecret={}", secret.map(|s| hx(&s.secret_bytes())).unwrap_or("none".into()), nxt)
+                            }
+                        }
+                    }
+                    _ => "bad-op".into(),
+                },
+                ["getpoint", db, pr, ns] => match (db.parse::<u64>(), unhx(pr), ns.parse::<u64>(), live.as_ref()) {
+                    (Ok(dbid), Some(peer), Ok(n), Some(l)) if peer.len() == 33 && n <= INITIAL => {
+                        let id0v = le_chan_id(&peer, dbid);
+                        if l.node.get_channel(&ChannelId::new(&id0v)).is_err() {
+                            "err".into()
+                        } else {
+                            // the pre-v6 protocol: the reply carries the secret of n - 2
+                            let reply = channel_handler(&l.node, &peer, dbid, 5).and_then(|h| roundtrip(&h, &msgs::GetPerCommitmentPoint { commitment_number: n }));
+                            match reply {
+                                Some(Message::GetPerCommitmentPointReply(r)) => {
+                                    mon.co.tags.insert(if r.secret.is_some() { "getpoint:ok-secret".into() } else { "getpoint:ok".into() });
+                                    let pt = PublicKey::from_slice(&r.point.0).unwrap();
+                                    let ps = mon.point_obs(l, &id0v, n, pt, "GetPerCommitmentPoint");
+                                    if let Some(s) = &r.secret {
+                                        mon.rereleased(l, &id0v, n - 2, s.0, "GetPerCommitmentPoint (pre-v6)");
+                                    }
+                                    // the v6 protocol returns the same point and no secret
+                                    if let Some(Message::GetPerCommitmentPointReply(r6)) = channel_handler(&l.node, &peer, dbid, 6).and_then(|h| roundtrip(&h, &msgs::GetPerCommitmentPoint { commitment_number: n })) {
+                                        if r6.point.0 != r.point.0 || r6.secret.is_some() {
+                                            mon.fire("keys-depend-on-history", format!("channel {}: GetPerCommitmentPoint({}) differs between protocol 5 and 6", hx(&id0v), n));
+                                        }
+                                    }
+                                    format!("ok pointsecret={} secret={}", ps, r.secret.as_ref().map(|s| hx(&s.0)).unwrap_or("none".into()))
+                                }
+                                _ => { mon.co.tags.insert("getpoint:err".into()); "err".into() }
                             }
                         }
                     }
